@@ -187,6 +187,21 @@ def cases(seed, tier):
                      [rand_filter(r, length) for _ in range(r.choice([0, 0, 1, 2]))])
             if thorough:
                 yield bc(length, n)
+    # ---- one ban of exactly n letters cut from INSIDE a chosen window of the ban-less run: the first window, the last
+    # window (for order 8 it ends beyond offset 65535 = 2^16 - 1: positions kept in 16 bits wrap there, seeded change C17-m)
+    # and, for order 8, the window that straddles offset 65536; either strand
+    for n in (6, 7, 8):
+        db = debruijn(n)
+        for length in sorted(set([n + 1, 15, 16, 17, 20, 22, 23, 30] + ([n + 2, 18, 19, 21, 25, 40, 60] if thorough else []))):
+            if length < n + 1: continue
+            stride = length - (n - 1)
+            last = ((len(db) - length) // stride) * stride
+            starts = [0, last] + ([(65536 - length // 2) // stride * stride] if n == 8 else [])
+            for st in starts:
+                w = db[st:st + length]
+                off = r.randrange(0, length - n + 1)
+                ban = w[off:off + n]
+                yield bc(length, n, [ban if r.random() < 0.5 else rc(ban)])
     # ---- bans longer than 8 letters (the repository's own examples ban 11 and 14 letters): cut from a window, either strand
     for n in ((3, 4, 5, 6, 7, 8) if thorough else (4, 6, 8)):
         db = debruijn(n)
